@@ -441,6 +441,8 @@ func (sh *SequenceHandler) Check(seqNum uint32) error {
 		diff := seqNum - sh.highest
 		// Shift bitmap by diff
 		sh.bitMap <<= diff
+		// Mark the previous highest sequence number as received.
+		sh.bitMap |= uint64(1) << (diff - 1)
 		// Update highest value
 		sh.highest = seqNum
 		return nil
